@@ -874,7 +874,10 @@ func init() {
 	}
 	families["joins"] = func(r *rng, n int, emit emitFn) {
 		for i := 0; i < n; i++ {
-			emit(hx(genJoin(r, 2)))
+			// some of the names the conditions mention are bound by lets (a bound name is a value, not a key,
+			// at every nesting depth)
+			pre := pick(r, []string{"", "", "let n = 1; ", "let n = 1; let k = 'v'; ", "let lim = 5; let n = lim; "})
+			emit(hx(pre + genJoin(r, 2)))
 		}
 	}
 	families["lets"] = func(r *rng, n int, emit emitFn) {
@@ -936,7 +939,8 @@ func genJoin(r *rng, depth int) string {
 		}
 		cond := pick(r, []string{"a", "k", "$left.a == $right.a", "$left.a == $right.b", "a, b", "a, $left.b < $right.b", "$left.a == $right.a and $left.b != $right.b",
 			"($left.a) == $right.a", "$left.a == $right.a, $right.b > 1", "`a`", "true", "$left.a + 1 == $right.b", "tolower($left.a) == $right.b", "$left.a =~ $right.a",
-			"a, b, $left.k < $right.k", "k, a, b, c", "$left.a == $right.a, $left.b == $right.b, $left.c == $right.c", "a, not($left.b == $left.c), b"})
+			"a, b, $left.k < $right.k", "k, a, b, c", "$left.a == $right.a, $left.b == $right.b, $left.c == $right.c", "a, not($left.b == $left.c), b",
+			"n", "$left.a == n", "a, $right.b > n", "n == $left.a, k", "$left.a == $right.a, lim"})
 		left += " | join " + kind + "(" + right + ") on " + cond
 		if p := genPipeline(r, 2); p != "" && r.chance(1, 2) {
 			left += " | " + p
